@@ -164,7 +164,7 @@ fn grid1(en: &Entry) -> Vec<String> {
         vec![
             "0", "0.1", "0.25", "0.5", "0.75", "1", "1.5", "2", "2.5", "3", "3.5", "4.75", "7", "10", "25", "100.5", "700", "1000000", "0.001", "0.000001", "(-0.1)", "(-0.25)", "(-0.5)", "(-0.75)", "(-1)", "(-1.5)", "(-2.5)", "(-3)", "(-3.5)",
             "(-7.5)", "(-20.25)", "(-150.5)", "150.5", "20", "21", "22", "23", "27", "28", "100", "170", "171", "12.75", "(-12.25)", "0.9", "(-0.9)", "1.05", "0.99", "(-0.99)", "2.4", "2.6", "(-2.4)", "(-2.6)", "4.5", "(-4.5)", "5", "6", "18",
-            "0.3678", "(-0.3678)", "(-0.36)", "(-0.2)", "50", "1000", "0.0001",
+            "0.3678", "(-0.3678)", "(-0.36)", "(-0.2)", "50", "1000", "0.0001", "0.0", "1.0", "2.0", "3.0", "4.0", "5.0", "10.0", "20.0", "21.0", "(-1.0)", "(-3.0)", "170.0",
         ]
     };
     general.into_iter().map(|s| s.to_string()).collect()
